@@ -121,9 +121,9 @@ package openflow13
 //@ spec size(m *InPortField) = 4
 //@ spec wf(m *InPortField) = true
 //@ spec size(m *EthDstField) = 6
-//@ spec wf(m *EthDstField) = len(m.EthDst) <= 6
+//@ spec wf(m *EthDstField) = len(m.EthDst) == 6
 //@ spec size(m *EthSrcField) = 6
-//@ spec wf(m *EthSrcField) = len(m.EthSrc) <= 6
+//@ spec wf(m *EthSrcField) = len(m.EthSrc) == 6
 //@ spec size(m *EthTypeField) = 2
 //@ spec wf(m *EthTypeField) = true
 //@ spec size(m *VlanIdField) = 2
@@ -137,9 +137,9 @@ package openflow13
 //@ spec size(m *Ipv4DstField) = 4
 //@ spec wf(m *Ipv4DstField) = true
 //@ spec size(m *Ipv6SrcField) = 16
-//@ spec wf(m *Ipv6SrcField) = len(m.Ipv6Src) <= 16
+//@ spec wf(m *Ipv6SrcField) = len(m.Ipv6Src) == 16
 //@ spec size(m *Ipv6DstField) = 16
-//@ spec wf(m *Ipv6DstField) = len(m.Ipv6Dst) <= 16
+//@ spec wf(m *Ipv6DstField) = len(m.Ipv6Dst) == 16
 //@ spec size(m *IPv6FlowLabelField) = 4
 //@ spec wf(m *IPv6FlowLabelField) = true
 //@ spec size(m *IpProtoField) = 1
@@ -161,7 +161,7 @@ package openflow13
 //@ spec size(m *TunnelIpv4DstField) = 4
 //@ spec wf(m *TunnelIpv4DstField) = true
 //@ spec size(m *ArpXHaField) = 6
-//@ spec wf(m *ArpXHaField) = len(m.ArpHa) <= 6
+//@ spec wf(m *ArpXHaField) = len(m.ArpHa) == 6
 //@ spec size(m *ArpXPaField) = 4
 //@ spec wf(m *ArpXPaField) = true
 //@ spec size(m *ActsetOutputField) = 4
@@ -237,7 +237,7 @@ package openflow13
 //@   flag notrunc
 
 //@ spec size(p *PortMod) = 40
-//@ spec wf(p *PortMod) = len(p.pad) <= 4 && len(p.HWAddr) <= 6 && len(p.pad2) <= 2 && len(p.pad3) <= 4 && p.Header.Version == 4 && p.Header.Type == 16
+//@ spec wf(p *PortMod) = len(p.pad) <= 4 && len(p.HWAddr) == 6 && len(p.pad2) <= 2 && len(p.pad3) <= 4 && p.Header.Version == 4 && p.Header.Type == 16
 
 //@ func (*PortMod).MarshalBinary(p) (data, err)
 //@   ensures[C01] u8(data, 0) == 4 && u8(data, 1) == 16 && be16(data, 2) == uint16(len(data))
@@ -518,7 +518,7 @@ package openflow13
 //@     invariant n == 16 + 2*#k && be16(data, 0) == a.Type && be16(data, 2) == a.Length && be32(data, 4) == a.Vendor && be16(data, 8) == a.Subtype
 
 //@ spec size(h *NXLearnSpecHeader) = int(h.length)
-//@ spec wf(h *NXLearnSpecHeader) = h.length == 2 && h.nBits < 2048
+//@ spec wf(h *NXLearnSpecHeader) = h.length == 2 && h.nBits < 2048 && (h.output ==> !h.src && !h.dst)
 
 //@ spec size(f *NXLearnSpecField) = 6
 //@ spec wf(f *NXLearnSpecField) = f.Field != nil && f.Field.Field < 128
@@ -569,6 +569,10 @@ package openflow13
 //@ spec wf(a *NXActionController) = wf(a.NXActionHeader) && int(a.Subtype) == nxsubtype(a)
 //@ spec typecode(a *NXActionController) = 65535
 //@ spec nxsubtype(a *NXActionController) = 20
+
+//@ func (*BundlePropertyExperimenter).MarshalBinary(p) (data, err)
+//@   modifies p.Length
+//@   ensures[C13 C02] p.Length == uint16(size(p))
 
 //@ func (*NXActionController).MarshalBinary(a) (data, err)
 //@   ensures[C13 C02] a.Length == uint16(size(a))
